@@ -333,6 +333,18 @@ def run_rseq(origin, mid, flags, max_size, ops):
         try:
             if op[0] == 0:
                 r.add_question(N(op[1]), op[2], op[3])
+            elif op[0] == 10:
+                r.reserve(op[1])
+            elif op[0] == 11:
+                r.release_reserved()
+            elif op[0] == 12:
+                ttl, payload, options = op[1]
+                r.add_opt(dns.renderer._make_opt(ttl, payload, [dns.edns.GenericOption(c, bytes(d)) for c, d in options]),
+                          op[2], op[3], op[4])
+            elif op[0] == 13:
+                r.write_header()
+            elif op[0] == 14:
+                r._write_tsig(mk_tsig_rdata(op[2]), N(op[1]))
             else:
                 r.add_rrset(op[0], mk_rrset(op[1]), want_shuffle=False)
             res.append(0)
@@ -942,6 +954,48 @@ def gen_rseq(rng, origin=None):
     return [mid, flags, max_size, ops]
 
 
+def gen_rapi(rng, origin=None):
+    """gen_rseq plus reserve / release_reserved / add_opt (with and without padding) / write_header /
+    _write_tsig, in the order an application would use them (and sometimes not)"""
+    mid, flags, max_size, ops = gen_rseq(rng, origin)
+    max_size = rng.choice([max_size, max_size + 150, 512, 700, 1200, 1200])
+    pool = NamePool(rng, None)
+    pre, post = [], []
+    resv = rng.choice([0, 0, 0, 20, 60, 60, 200, 200] + ([max_size + 1, -1] if rng.random() < 0.25 else []))
+    if resv:
+        pre.append([10, resv])
+    if rng.random() < 0.3:
+        pre.append([10, rng.choice([0, 11, 40])])
+    if resv and rng.random() < 0.7:
+        post.append([11])
+    if rng.random() < 0.6:
+        options = rng.choice([[], [[65001, b"\x01\x02"]], [[10, bytes(8)], [65002, b""]]])
+        pad = rng.choice([0, 0, 1, 16, 128])
+        osz = 11 + sum(len(d) + 4 for _, d in options) + (4 if pad else 0)
+        post.append([12, [rng.choice([0, 0x8000, 0x01008000]), rng.choice([512, 1232, 4096]), options],
+                     pad, rng.choice([osz, osz, 11, osz + 7]), rng.choice([0, 0, 61, 100])])
+    if rng.random() < 0.5:
+        post.append([13])
+    if rng.random() < 0.5:
+        owners = [op[1][0] for op in ops if op[0] in (1, 2, 3) and op[1][0] and op[1][0][-1] == b""]
+        kn = [b"key", b"example", b""]
+        if owners and rng.random() < 0.7:
+            ow = rng.choice(owners)
+            kn = list(ow) if rng.random() < 0.5 else [b"k"] + list(ow)
+            while wire_len(kn) > 255:
+                kn = kn[1:]
+        t = gen_tsig(rng, pool, mid)
+        while t is None:
+            t = gen_tsig(rng, pool, mid)
+        post.append([14, kn, t[1]])
+    if rng.random() < 0.15 and ops:
+        # something after the trailer: records after OPT are fine, after TSIG the reader must refuse
+        post.append(ops[-1])
+    if rng.random() < 0.1:
+        rng.shuffle(post)
+    return [mid, flags, max_size, pre + ops + post]
+
+
 def rr_list(am, origin):
     """the record sets of a message in section order, as comparable keys (names lowered, origin appended)"""
 
@@ -980,7 +1034,10 @@ def check_rseq(case, out, fail):
     if len(w) > max(ms, 12):
         fail("renderer output exceeds max_size", length=len(w), limit=ms, sig="size")
     # the records that were accepted, in order, must be what the message holds
-    kept = [op for op, fl in zip(ops, res) if fl == 0]
+    kept = [op for op, fl in zip(ops, res) if fl == 0 and op[0] in (0, 1, 2, 3)]
+    tsig_at = [i for i, (op, fl) in enumerate(zip(ops, res)) if fl == 0 and op[0] == 14]
+    if tsig_at and any(fl == 0 and op[0] in (1, 2, 3, 12, 14) for op, fl in list(zip(ops, res))[tsig_at[0] + 1:]):
+        return      # records written after the TSIG record: not a message the reader accepts
     am = [mid, flags, [[[op[1], op[3], op[2], 0, None, 0, []] for op in kept if op[0] == 0]] +
           [[op[1] for op in kept if op[0] == s] for s in (1, 2, 3)], None, None]
     try:
